@@ -10,26 +10,29 @@ import (
 // no repeated name and no repeated type-only key within one struct-form list.
 
 type Profile struct {
-	Name       string
-	Types      []string // concrete types
-	Ifaces     []string // interface types usable for parameters / outputs
-	Names      []string
-	Subs       []string
-	MaxIn      int // per converter
-	MaxOut     int
-	MaxTIn     int // target
-	MaxInputs  int
-	MaxConvs   int
-	Forms      []string
-	FailProb   float64
-	OnceProb   float64
-	MultiMax   int // max number of converters with >1 input (-1 = unlimited)
-	Modes      []string
-	GenProb    float64
-	DefProb    float64
-	BadProb    float64
-	DupInputs  bool // allow repeated input keys
-	TargetOuts int
+	Name   string
+	Types  []string // concrete types
+	Ifaces []string // interface types usable for parameters / outputs
+	// IfaceTypeOnly: interface-typed parameters and results are type-only (the redefine profiles: a value handed to a
+	// redefined function is passed on under its dynamic type, which a NAMED interface parameter does not accept)
+	IfaceTypeOnly bool
+	Names         []string
+	Subs          []string
+	MaxIn         int // per converter
+	MaxOut        int
+	MaxTIn        int // target
+	MaxInputs     int
+	MaxConvs      int
+	Forms         []string
+	FailProb      float64
+	OnceProb      float64
+	MultiMax      int // max number of converters with >1 input (-1 = unlimited)
+	Modes         []string
+	GenProb       float64
+	DefProb       float64
+	BadProb       float64
+	DupInputs     bool // allow repeated input keys
+	TargetOuts    int
 }
 
 var Profiles = map[string]Profile{
@@ -54,7 +57,7 @@ var Profiles = map[string]Profile{
 	"fail": {Types: []string{"T1", "T2", "T3", "T4"}, Ifaces: []string{"I1"}, Names: []string{"", "", "a"}, Subs: []string{"", "", "", "s"},
 		MaxIn: 2, MaxOut: 2, MaxTIn: 2, MaxInputs: 2, MaxConvs: 4, Forms: []string{"pos", "struct", "ptr", "built"}, FailProb: 0.4, OnceProb: 0.15,
 		MultiMax: -1, Modes: []string{"call"}, TargetOuts: 1},
-	"redef": {Types: []string{"T1", "T2", "T3", "T4", "U1", "P1"}, Names: []string{"", "", "", "a", "a", "b", "x-y"}, Subs: []string{""},
+	"redef": {Types: []string{"T1", "T2", "T3", "T4", "U1", "P1"}, Ifaces: []string{"I1", "I2"}, IfaceTypeOnly: true, Names: []string{"", "", "", "a", "a", "b", "x-y"}, Subs: []string{""},
 		MaxIn: 1, MaxOut: 1, MaxTIn: 2, MaxInputs: 2, MaxConvs: 4, Forms: []string{"pos", "struct", "ptr"}, FailProb: 0, OnceProb: 0.1,
 		MultiMax: 0, Modes: []string{"redefine"}, TargetOuts: 2, DefProb: 0.25},
 	"redefgen": {Types: []string{"T1", "T2", "T3", "T4"}, Names: []string{"", "", "", "a", "b"}, Subs: []string{""},
@@ -87,10 +90,22 @@ func pick(r *rand.Rand, xs []string) string { return xs[r.Intn(len(xs))] }
 
 func (p Profile) label(r *rand.Rand, allowIface bool) Label {
 	ts := p.Types
-	if allowIface && len(p.Ifaces) > 0 && r.Intn(6) == 0 {
+	iface := allowIface && len(p.Ifaces) > 0 && r.Intn(p.ifaceOdds()) == 0
+	if iface {
 		ts = p.Ifaces
 	}
-	return Label{Name: pick(r, p.Names), Type: pick(r, ts), Sub: pick(r, p.Subs)}
+	l := Label{Name: pick(r, p.Names), Type: pick(r, ts), Sub: pick(r, p.Subs)}
+	if iface && p.IfaceTypeOnly {
+		l.Name = ""
+	}
+	return l
+}
+
+func (p Profile) ifaceOdds() int {
+	if p.IfaceTypeOnly {
+		return 3
+	}
+	return 6
 }
 
 // dedupe keeps C06's well-formedness: no repeated name, no repeated type-only key.
